@@ -47,6 +47,7 @@ FAMS = {
     'FAR': lambda i: 1234567.0 + i,             # unit pitch far from the origin: lines agree in their first six digits
     'FARDEC': lambda i: 2500000.25 + 0.5 * i,
     'NEG': lambda i: -2.5 + i,                  # 'any origin': a grid lying (partly) at negative coordinates
+    'FARTHIN': lambda i: 1e8 + [0.0, 1.0, 1.0625, 2.0, 3.0][i],      # a 1/16-wide column at 1e8 (binary exact)
     'NEG0': lambda i: -1.0 + i,                 # ... with an inner grid line at exactly 0.0 (a die centred on the origin)
     'NEG0F': lambda i: -1.5 + 0.75 * i,         # ... the same with fractional pitch (line 0.0 is the third one)
 }
